@@ -175,24 +175,20 @@ theorem code_immutable (ops : List Ax.C08.WriteOp) (m : Mem) (hm : m.WF) (hno : 
 theorem new_code_RX (init : Regs) (code : List Byte) (start rip : Nat) (s : Machine)
     (h : Machine.new init code start rip = .ok s) :
     s.mem = [{ name := none, start := start, len := code.length, data := code, access := PROT_READ ||| PROT_EXEC }] := by
-  unfold Machine.new at h
-  cases hu : u64add start code.length with
-  | none => simp [hu] at h
-  | some cend =>
-    simp only [hu] at h
-    cases hi : initArea ([] : Mem) start code none with
-    | err => simp [hi] at h
-    | panic => simp [hi] at h
-    | ok m1 =>
-      have hm1 := (Ax.C10.initArea_ok [] start code none m1 hi).1
-      simp only [List.nil_append] at hm1
-      subst hm1
-      have hp : memProt [{ name := none, start := start, len := code.length, data := code, access := PROT_READ ||| PROT_WRITE }]
-          start (PROT_READ ||| PROT_EXEC) =
-          .ok [{ name := none, start := start, len := code.length, data := code, access := PROT_READ ||| PROT_EXEC }] := by
-        simp [memProt, memProt.go, PROT_READ, PROT_EXEC]
-      simp only [hi, hp, Out.ok.injEq] at h
-      rw [← h]
+  simp only [Machine.new] at h
+  cases hi : initArea ([] : Mem) start code none with
+  | err => simp [hi] at h
+  | panic => simp [hi] at h
+  | ok m1 =>
+    have hm1 := (Ax.C10.initArea_ok [] start code none m1 hi).1
+    simp only [List.nil_append] at hm1
+    subst hm1
+    have hp : memProt [{ name := none, start := start, len := code.length, data := code, access := PROT_READ ||| PROT_WRITE }]
+        start (PROT_READ ||| PROT_EXEC) =
+        .ok [{ name := none, start := start, len := code.length, data := code, access := PROT_READ ||| PROT_EXEC }] := by
+      simp [memProt, memProt.go, PROT_READ, PROT_EXEC]
+    simp only [hi, hp, Out.ok.injEq] at h
+    rw [← h]
 
 /-- Freshly created data areas are readable and writable but not executable: fetching from them fails. -/
 theorem data_not_executable (m : Mem) (hm : m.WF) (hno : NoOverlap m) (start : Nat) (data : List Byte) (name) (m')
